@@ -52,6 +52,21 @@ CHECKS.update({
    text="Bounded-exhaustive over a 30-type core for lists of length 1..2 (and 3 in the thorough tier; two positions from a 17-type subset in the quick tier) plus a seeded sample of 4-lists: TLC checks on every recorded call that each returned conversion yields values of the unified type, is absent exactly for inputs equal to the result (placeholder-free), never fails or panics in safe mode, is also offered by GetConversion in safe mode, that equal types unify to themselves and that safe success implies unsafe success.",
    design_ref="DESIGN.md section 4 C09",
    note="Which type is chosen is not judged. Trusted: harness projection, TLC."),
+ "C04": dict(
+   technique="TLA+ two-run non-interference contract (marked vs UnmarkDeep-ed inputs); TLC-enumerated mark placements over operation methods, conversions, constructors and every standard-library function, replayed into the real API; TLC trace validation",
+   text="Bounded-exhaustive: for all operation methods, Convert to a 14-target menu, the collection/structure constructors and all 78 enumerable standard-library functions, TLC enumerates inputs and placements of two marks at the top level and on nested members (combined with unknown and null values); both the marked and the stripped call run on the real code and TLC judges SameOutcome, SameValue, NoInvention, TopMarksKept, DeepMarksKept (by the function's own AllowMarked flags) and SetHoists.",
+   design_ref="DESIGN.md section 4 C04",
+   note="Two marks; value universe as C01; function argument pools as C11. Trusted: harness projection (marks by name), TLC."),
+ "C11": dict(
+   technique="TLA+ outcome/typing contract; TLC-enumerated argument lists (from the functions' own declared signatures) with null/unknown/dynamic/mark injections replayed into real Call/ReturnType/ReturnTypeForValues; TLC trace validation",
+   text="Bounded enumeration: for each of the 78 enumerable exported functions TLC builds argument lists from per-constraint pools (dynamic constraints instantiated with 18 types), variadic tails, and single-position injections of null, unknown, refined unknown, DynamicVal, dynamically typed null, marks and nested unknowns; TLC judges on every recorded call that nothing panics or reports an internal panic, that results conform to both predicted types and that neither prediction rejects a call that succeeds.",
+   design_ref="DESIGN.md section 4 C11",
+   note="byteslen/bytesslice (capsule arguments) are not enumerated. Pools are bounded menus thinned with a seeded RandomSubset. Trusted: harness projection, TLC."),
+ "C12": dict(
+   technique="TLC-enumerated (concrete, weakened) argument lists for every standard-library function replayed into the real functions; TLC trace validation with the Admits approximation order",
+   text="Bounded enumeration: for each function and each generated argument list on which the concrete call succeeds, every single-position weakening (top level or nested, refinement menu true of the replaced part) and a thin two-position family are executed; TLC judges NoNewFailure, ResultAdmits, KnownInKnownOut and purity of the weakened call.",
+   design_ref="DESIGN.md section 4 C12",
+   note="One known finding (setproduct lower length bound) is listed in KNOWN_FINDINGS.txt. Typed unknowns only. Trusted: harness projection, TLC."),
 })
 
 NOT_APPLICABLE = {}
